@@ -266,6 +266,8 @@ def run(ctx, params):
     gen = treegen.Gen()
     for i in range(params["valid"]):
         root = gen.valid_tree(rng.choice(["eml", "eml", "dataset", "dataset", "dataTable", "project", "methods"]), rng, rng.choice([20, 60, 150]))
+        if rng.random() < 0.3:
+            treegen.decorate_like_import(rng, root)
         tweak(rng, root, ctx)
         ctx.case(judge, ctx, root, "valid+threshold-tweaks", True)
         if i % 3 == 0:
